@@ -43,6 +43,7 @@ DevShort(ret) ==
     /\ x < Len(R)
     /\ n >= 1 /\ Len(D) = bounds[n]
     /\ IsPrefixOf(D, R) /\ Len(D) < Len(R) /\ Len(D) >= x
+    /\ Len(D) <= MaxADU(Fr)          \* (more than an ADU can hold must have been refused as too long before anything else)
     /\ (n = 1 \/ bounds[n - 1] < x)
     /\ (bpSeen \/ cfg.hooks = 0)
     /\ \/ ret.kind = "err" /\ ret.isClientError = 0
